@@ -113,22 +113,43 @@ func init() {
 }
 
 func init() {
-	registerSystem("C01", func() *explore.System { return aolSystem(aolVariant{ID: "C01", OwnRec: true, Ctl: []string{"NB", "RS", "XI"}}) })
+	registerSystem("C01", func() *explore.System {
+		return aolSystem(aolVariant{ID: "C01", OwnRec: true, Ctl: []string{"NB", "RS", "XI"}})
+	})
 	registerSystem("C01/big", func() *explore.System {
 		acc := aolAccs()
 		return aolSystem(aolVariant{ID: "C01/big", OwnRec: true, Ctl: []string{"NB", "XI"}, Inject: &aolInject{Big: &aolBig{Owner: acc.A, Writer: acc.W, Name: "a", N: 255}}})
 	})
-	registerSystem("C02", func() *explore.System { return aolSystem(aolVariant{ID: "C02", Forged: true, OwnACL: true, Ctl: []string{"NB"}}) })
-	registerSystem("C13/init0", func() *explore.System { return aolSystem(aolVariant{ID: "C13/init0", OwnCount: true, Ctl: []string{"NB", "XI"}}) })
-	registerSystem("C13/init1", func() *explore.System { return aolSystem(aolVariant{ID: "C13/init1", OwnCount: true, Ctl: []string{"NB", "XI"}, Inject: c13Inject()}) })
+	registerSystem("C02", func() *explore.System {
+		return aolSystem(aolVariant{ID: "C02", Forged: true, OwnACL: true, Ctl: []string{"NB"}})
+	})
+	registerSystem("C13/init0", func() *explore.System {
+		return aolSystem(aolVariant{ID: "C13/init0", OwnCount: true, Ctl: []string{"NB", "XI"}})
+	})
+	registerSystem("C13/init1", func() *explore.System {
+		return aolSystem(aolVariant{ID: "C13/init1", OwnCount: true, Ctl: []string{"NB", "XI"}, Inject: c13Inject()})
+	})
 	registerSystem("C03", func() *explore.System { return didSystem(didVariant{ID: "C03", Ctl: []string{"NB", "RS", "XI"}}) })
-	registerSystem("C04", func() *explore.System { return didSystem(didVariant{ID: "C04", Replays: true, EmptyID: true, Small: true, Ctl: []string{"NB", "RS", "XI"}}) })
-	registerSystem("C05", func() *explore.System { return didSystem(didVariant{ID: "C05", EmptyID: true, Ctl: []string{"NB", "RS", "XI"}}) })
-	registerSystem("C05/bulk", func() *explore.System { return didSystem(didVariant{ID: "C05/bulk", Bulk: 120, Small: true, Ctl: []string{"XI", "RS"}}) })
-	registerSystem("C11", func() *explore.System { return didSystem(didVariant{ID: "C11", Mismatch: true, EmptyID: true, StrictID: true, Small: true, Ctl: []string{"NB", "XI"}}) })
-	registerSystem("C06", func() *explore.System { return pnftSystem(pnftVariant{ID: "C06", Auth: true, StrictDelete: true, Ctl: []string{"NB", "XI"}}) })
-	registerSystem("C12", func() *explore.System { return pnftSystem(pnftVariant{ID: "C12", Wide: true, Queries: true, StrictDelete: true, Ctl: []string{"NB", "XI"}}) })
+	registerSystem("C04", func() *explore.System {
+		return didSystem(didVariant{ID: "C04", Replays: true, EmptyID: true, Small: true, Ctl: []string{"NB", "RS", "XI"}})
+	})
+	registerSystem("C05", func() *explore.System {
+		return didSystem(didVariant{ID: "C05", EmptyID: true, Ctl: []string{"NB", "RS", "XI"}})
+	})
+	registerSystem("C05/bulk", func() *explore.System {
+		return didSystem(didVariant{ID: "C05/bulk", Bulk: 120, Small: true, Ctl: []string{"XI", "RS"}})
+	})
+	registerSystem("C11", func() *explore.System {
+		return didSystem(didVariant{ID: "C11", Mismatch: true, EmptyID: true, StrictID: true, Small: true, Ctl: []string{"NB", "XI"}})
+	})
+	registerSystem("C06", func() *explore.System {
+		return pnftSystem(pnftVariant{ID: "C06", Auth: true, StrictDelete: true, Ctl: []string{"NB", "XI"}})
+	})
+	registerSystem("C12", func() *explore.System {
+		return pnftSystem(pnftVariant{ID: "C12", Wide: true, Queries: true, StrictDelete: true, Ctl: []string{"NB", "XI"}})
+	})
 	registerSystem("C07", c07System)
 	registerSystem("C08/empty", func() *explore.System { return c08System("empty") })
+	registerSystem("C08/bulk", func() *explore.System { return c08System("bulk") })
 	registerSystem("C08/populated", func() *explore.System { return c08System("populated") })
 }
